@@ -166,4 +166,15 @@ CHECKS["C26"] = dict(
     note="Expressions inside steps are concrete text (lark is opaque). The rule table is finite and written from the property statement. Trusted: z3, forksym.",
     design_ref="DESIGN.md §4 C26", engine="forksym+z3")
 
+_tv("C05", "Obligations read from the live method catalog: for every row x backend marked supported the single-step pipeline of the catalog's example expression "
+    "over symbolic (nullable) argument columns is compared by z3 with the method's documented scalar meaning (reference table written from the Term.* docstrings), "
+    "or, where the docs are silent, with the other backends that claim the method.",
+    "per-(method, backend) translation validation against a documented-meaning reference table (z3 per-path equality)", "DESIGN.md §4 C05",
+    "Outside: date/time methods, _uniform, any_value (documented as arbitrary), string methods, std/var/median, numerical accuracy of transcendental functions.")
+_tv("C21", "rank_to_average and last_observed_carried_forward: the helper's pipeline executed symbolically (Pandas executor over the model; SQLite text) against a "
+    "reference from the docstring (order-free formulas), z3 per-path equality; replicate_rows_query: its finite input domain (counts 1..max_count) enumerated "
+    "completely on real pandas and SQLite; def_multi_column_map: enumerated mapping tables on the real engines.",
+    "translation validation of helper pipelines against docstring references (z3); finite-domain enumeration for replicate_rows_query", "DESIGN.md §4 C21",
+    "replicate_rows_query / def_multi_column_map are decided by enumeration on the real engines, not by the solver (log/ceil/string keys, record transforms).")
+
 NOT_YET = {}
